@@ -9,13 +9,35 @@ def nontrivial(req, obs):
 
 def finding_key(req, obs, detail):
     import re
+    d = detail or ""
+    # a reference to an earlier enumerator whose initialiser had an enum or const-qualified type
+    if req.startswith("C13.enum\t") and re.match(
+            r"FAIL:panic typer/src/typer/expressions\.rs:\d+: \[(int|uint), Rvalue\] != \[[^\]]+, Rvalue\]: Literal\((Int32|UInt32)\(", d):
+        return K_ENUMREF
     m = re.match(r"FAIL:panic ([^:]+):\d+: (.*)$", detail or "")
     if m:
         return "panic %s: %s" % (m.group(1), re.sub(r"\d+", "N", m.group(2)))
     # one call site, one finding: Constant::to_uint64 lets negative literals through as sizes
     if re.match(r"FAIL:(array|numthreads) recorded (len|threads):\d+ for an expression whose value is L-\d+ ", detail or ""):
         return "size from a negative literal accepted (Constant::to_uint64, ir/src/ir_types.rs)"
+    d = detail or ""
+    # template value arguments are bound with the type of the argument expression, not converted to the declared
+    # parameter type (the oracle tags exactly the observations that the unconverted argument explains)
+    if d.startswith("FAIL:[template argument not converted to the parameter type"):
+        return K_TEMPLATE
+    # Constant::to_f32 has no arm for FloatLiteral and refuses negative Int32 values
+    if re.match(r"FAIL:(minlod|maxlod) recorded reject:\S* ?state requires a float.* whose value is (fl[0-9a-f]{16}|i-\d+) ", d):
+        return K_TOF32
+    # RayQuery<flags>: get_uint truncates an out-of-range literal with `as u32`
+    if re.match(r"FAIL:rayquery recorded flags:\d+ for an expression whose value is L-?\d+ \(expected a rejection", d):
+        return K_RAYQUERY
     return req.split("\tsrc:")[0]
+
+
+K_TEMPLATE = "template value argument is not converted to the declared parameter type (typer/src/typer/types.rs, scopes.rs)"
+K_TOF32 = "float property rejects a float literal or a negative int (Constant::to_f32, ir/src/ir_types.rs)"
+K_RAYQUERY = "RayQuery flags literal outside 32 bits is truncated (get_uint, typer/src/typer/types.rs)"
+K_ENUMREF = "panic typer/src/typer/expressions.rs: type self-check on a reference to an earlier enumerator (typer/src/typer/enums.rs records the initialiser's static type)"
 
 
 def _subtrees(s):
